@@ -352,6 +352,7 @@ class NumInterp(Interp):
             'array': np.array, 'roll': np.roll, 'zeros': np.zeros, 'ones': np.ones, 'eye': np.eye, 'diag': np.diag,
             'sqrt': np.sqrt, 'exp': np.exp, 'kron': np.kron, 'cos': np.cos, 'sin': np.sin, 'conj': np.conj, 'pi': np.pi,
             'complex128': complex, 'complex64': complex, 'float64': float,
+            'einsum': np.einsum, 'moveaxis': np.moveaxis, 'unravel_index': np.unravel_index, 'argmax': np.argmax, 'transpose': np.transpose, 'reshape': np.reshape, 'outer': np.outer, 'tensordot': np.tensordot,
             'sort': np.sort, 'asarray': np.asarray, 'abs': np.abs, 'mod': np.mod, 'arange': np.arange, 'cumprod': np.cumprod, 'hstack': np.hstack,
             'concatenate': np.concatenate, 'dot': np.dot, 'hypot': np.hypot, 'append': np.append, 'prod': np.prod, 'isclose': np.isclose, 'allclose': np.allclose, 'log': np.log, 'power': np.power, 'trace': np.trace, 'square': np.square, 'sum': np.sum, 'tan': np.tan, 'arccos': np.arccos, 'arcsin': np.arcsin, 'angle': np.angle, 'real': np.real, 'imag': np.imag,
         }
@@ -508,7 +509,7 @@ class NumInterp(Interp):
             v = self.ev(n.value)
             if isinstance(v, dict) and n.attr in v:
                 return v[n.attr]
-            if isinstance(v, self.np.ndarray) and n.attr in ('T', 'shape', 'real', 'imag', 'dot', 'reshape', 'conj', 'copy', 'astype', 'tolist', 'flatten'):
+            if isinstance(v, self.np.ndarray) and n.attr in ('T', 'shape', 'ndim', 'size', 'dtype', 'real', 'imag', 'dot', 'reshape', 'conj', 'copy', 'astype', 'tolist', 'flatten', 'transpose', 'ravel', 'argmax', 'sum', 'max', 'min'):
                 return getattr(v, n.attr)
             if isinstance(v, (int, float, complex)) and n.attr in ('real', 'imag'):
                 return getattr(complex(v), n.attr)
